@@ -1,9 +1,12 @@
 SPECIFICATION GSpec
 CONSTANTS
   Layouts = {10, 20, 30, 11, 21, 22}
+  Excs = {"hardware", "other"}
   Depth = 7
   Depth2 = 5
   Upd = {"a1", "a2", "a3", "b1", "b2"}
+  FC = {}
+  FO = {}
   UpdAny = FALSE
 CONSTRAINT Bound
 INVARIANT Emit1
